@@ -82,7 +82,12 @@ func tableConcat(L *LState) int {
 			L.Push(sep)
 		}
 	}
-	L.Push(stringConcat(L, L.GetTop()-retbottom, L.reg.Top()-1))
+	ret := stringConcat(L, L.GetTop()-retbottom, L.reg.Top()-1)
+	if _, ok := ret.(LNumber); ok {
+		// a single number element: the result of concat is always a string
+		ret = LString(ret.String())
+	}
+	L.Push(ret)
 	return 1
 }
 
